@@ -124,3 +124,268 @@ Proof.
     + destruct (bettor_loses _ _) as [bk|] eqn:EB; [|discriminate]. injection H as <- <-.
       apply K; [apply (bettor_loses_eproj _ _ _ EB)|]. unfold recv, to. cbn [map zsum recv_e]. destruct (k_creator (ms_mkt x) =? a); lia.
 Qed.
+
+(* ---- a batch of participations -------------------------------------------------------------------------------------------------------------- *)
+(* with every bet settled, the profit recorded on a participation is the contribution of all bets (profit attribution, Settle.v) *)
+Lemma settle_participation_ent mk bets a p p' effs :
+  settle_participation p (k_status mk) (k_creator mk) = Some (p', effs) ->
+  (declaredb mk = true -> p_profit p = ctot (p_idx p) (winner mk) bets) ->
+  part_ent mk bets a p = recv a effs /\ part_ent mk bets a p' = 0.
+Proof.
+  unfold settle_participation. intros H Hp. destruct (p_settled p) eqn:Es; [discriminate|].
+  unfold part_ent at 1. rewrite Es. unfold refundedb, declaredb in *.
+  destruct (k_status mk =? MK_DECLARED) eqn:ED.
+  - assert (Hnr : (k_status mk =? MK_ABORTED) || (k_status mk =? MK_CANCELED) = false).
+    { apply Z.eqb_eq in ED. rewrite ED. reflexivity. }
+    rewrite Hnr. rewrite (Hp eq_refl) in H.
+    destruct (p_tba p =? 0) eqn:Et; inv H; (split; [|unfold part_ent; cbn [p_settled part_settle]; reflexivity]);
+      unfold recv, to; cbn [map zsum recv_e];
+      destruct (ctot (p_idx p) (winner mk) bets <? 0); cbn [recv_e]; destruct (p_owner p =? a); destruct (k_creator mk =? a); lia.
+  - destruct ((k_status mk =? MK_CANCELED) || (k_status mk =? MK_ABORTED)) eqn:ER; [|discriminate].
+    assert (Hr : (k_status mk =? MK_ABORTED) || (k_status mk =? MK_CANCELED) = true) by (rewrite orb_comm; exact ER).
+    rewrite Hr. inv H. split; [|unfold part_ent; cbn [p_settled part_settle]; reflexivity].
+    unfold recv, to. cbn [map zsum recv_e]. destruct (p_owner p =? a); lia.
+Qed.
+
+Lemma batch_parts_ent mk bets a ps : forall limit cnt alls c ps' effs,
+  batch_parts ps (k_status mk) (k_creator mk) limit cnt = Some (alls, c, ps', effs) ->
+  (forall p, In p ps -> declaredb mk = true -> p_profit p = ctot (p_idx p) (winner mk) bets) ->
+  zsum (map (part_ent mk bets a) ps) = zsum (map (part_ent mk bets a) ps') + recv a effs.
+Proof.
+  induction ps as [|p rest IH]; intros limit cnt alls c ps' effs H Hp; cbn [batch_parts] in H.
+  - inv H. unfold recv. cbn. lia.
+  - assert (Hrest : forall q, In q rest -> declaredb mk = true -> p_profit q = ctot (p_idx q) (winner mk) bets) by (intros q Hq; apply Hp; right; exact Hq).
+    destruct (p_settled p) eqn:Es.
+    + destruct (limit <=? cnt).
+      * inv H. unfold recv. cbn [map zsum]. lia.
+      * destruct (batch_parts rest _ _ limit cnt) as [[[[a1 c1] ps1] e1]|] eqn:EB; [|discriminate]. inv H.
+        cbn [map zsum app]. rewrite (IH _ _ _ _ _ _ EB Hrest). lia.
+    + destruct (settle_participation p (k_status mk) (k_creator mk)) as [[p' e0]|] eqn:ESP; [|discriminate].
+      destruct (settle_participation_ent mk bets a p p' e0 ESP (Hp p (or_introl eq_refl))) as [E1 E2].
+      destruct (limit <=? cnt + 1).
+      * inv H. cbn [map zsum]. rewrite E1, E2. lia.
+      * destruct (batch_parts rest _ _ limit (cnt + 1)) as [[[[a1 c1] ps1] e1]|] eqn:EB; [|discriminate]. inv H.
+        cbn [map zsum]. rewrite recv_app, E1, E2, (IH _ _ _ _ _ _ EB Hrest). lia.
+Qed.
+
+(* ---- a withdrawal from a participation of a resolved market ----------------------------------------------------------------------------------- *)
+Lemma resolved_split mk : status_res (k_status mk) -> (refundedb mk = true /\ declaredb mk = false) \/ (refundedb mk = false /\ declaredb mk = true).
+Proof. unfold refundedb, declaredb. intros [E|[E|E]]; rewrite E; [left|left|right]; split; reflexivity. Qed.
+
+Lemma withdraw_ent mk bets a b idx amt b' effs p :
+  status_res (k_status mk) -> withdraw_participation b idx amt = Some (b', effs) -> get_part b idx = Some p -> p_settled p = false ->
+  zsum (map (part_ent mk bets a) (bk_parts b)) = zsum (map (part_ent mk bets a) (bk_parts b')) + recv a effs.
+Proof.
+  intros Hres H Hg Hs. unfold withdraw_participation in H. rewrite Hg in H.
+  set (p' := part_upd p (p_liq p - amt) (p_crl p - amt) (p_enf p) (p_tba p) (p_crtb p) (p_maxloss p) (p_crml p) (p_crml_odds p) (p_profit p)) in *.
+  assert (Hidx : p_idx p' = idx) by (cbn [p' p_idx part_upd]; apply (gp_idx' _ _ _ Hg)).
+  assert (K : zsum (map (part_ent mk bets a) (bk_parts b)) = zsum (map (part_ent mk bets a) (bk_parts (set_part b p'))) + recv a [Pay POOL (p_owner p) amt]).
+  { unfold set_part. cbn [bk_parts book_upd]. rewrite Hidx. rewrite (upd_sum_found _ _ _ p _ Hg).
+    unfold part_ent. cbn [p' p_settled p_owner p_liq p_fee p_tba p_idx part_upd]. rewrite Hs.
+    unfold recv, to. cbn [map zsum recv_e].
+    destruct (resolved_split mk Hres) as [[R D]|[R D]]; rewrite R; [|rewrite D]; destruct (p_owner p =? a); destruct (p_tba p =? 0); destruct (k_creator mk =? a); lia. }
+  destruct (0 <? p_crl p'); [injection H as <- <-; exact K|].
+  destruct (remove_from_queues _ _); [|discriminate]. injection H as <- <-. exact K.
+Qed.
+
+(* ---- the transitions of a resolved market, with what they pay ----------------------------------------------------------------------------------- *)
+Inductive strans (P : params) : mstate -> list effect -> mstate -> Prop :=
+| ST_withdraw x signer depositor pidx mode amount d amt bk effs dmkt :
+    findb (dep_is depositor pidx) (ms_deps x) = Some d -> d_wcount d < pr_h_maxw P ->
+    calc_withdrawal (ms_book x) depositor pidx mode (d_wtotal d) amount = Some amt -> 0 <= amt ->
+    withdraw_participation (ms_book x) pidx amt = Some (bk, effs) ->
+    strans P x effs (mstate_upd x (ms_mkt x) bk (ms_bets x) (ms_pending x)
+                  (upd (dep_is depositor pidx)
+                       {| d_creator := d_creator d; d_depositor := d_depositor d; d_mkt := d_mkt d; d_pidx := d_pidx d;
+                          d_amount := d_amount d; d_wcount := d_wcount d + 1; d_wtotal := d_wtotal d + amt |} (ms_deps x))
+                  (ms_wds x ++ [{| w_id := d_wcount d + 1; w_creator := signer; w_depositor := depositor; w_mkt := dmkt;
+                                   w_pidx := pidx; w_mode := mode; w_amount := amt |}]))
+| ST_settle_bet x h id x' effs :
+    bk_status (ms_book x) = BK_ACTIVE -> settle_bet x h id = Some (x', effs) -> strans P x effs x'
+| ST_book_resolved x :
+    ms_pending x = [] -> bk_status (ms_book x) = BK_ACTIVE -> strans P x [] (with_book x (set_status (ms_book x) BK_RESOLVED))
+| ST_settle_parts x limit alls cnt ps effs :
+    bk_status (ms_book x) = BK_RESOLVED ->
+    batch_parts (bk_parts (ms_book x)) (k_status (ms_mkt x)) (k_creator (ms_mkt x)) limit 0 = Some (alls, cnt, ps, effs) ->
+    strans P x effs (with_book x (book_upd (ms_book x) (if alls then BK_SETTLED else bk_status (ms_book x)) (bk_partcnt (ms_book x))
+                                      (bk_queues (ms_book x)) ps (bk_expo (ms_book x)) (bk_expo_ix (ms_book x))
+                                      (bk_hist (ms_book x)) (bk_pairs (ms_book x)))).
+
+Inductive sreach (P : params) : mstate -> list effect -> mstate -> Prop :=
+| sr_refl x : sreach P x [] x
+| sr_step x e1 y e2 z : sreach P x e1 y -> strans P y e2 z -> sreach P x (e1 ++ e2) z.
+
+Lemma resolved_not_ai st : status_res st -> status_ai st = false.
+Proof. intros [E|[E|E]]; rewrite E; reflexivity. Qed.
+
+(* the labelled transitions are exactly the local transitions of a resolved market *)
+Lemma strans_mtrans P x effs x' : status_res (k_status (ms_mkt x)) -> strans P x effs x' -> mtrans P x x'.
+Proof.
+  intros Hres T. destruct T.
+  - eapply MT_withdraw; eassumption.
+  - eapply MT_settle_bet; eassumption.
+  - eapply MT_book_resolved; assumption.
+  - eapply MT_settle_parts; eassumption.
+Qed.
+
+Lemma mtrans_strans P x x' : status_res (k_status (ms_mkt x)) -> mtrans P x x' -> exists effs, strans P x effs x'.
+Proof.
+  intros Hres T. pose proof (resolved_not_ai _ Hres) as Hna.
+  assert (Hnact : k_status (ms_mkt x) <> MK_ACTIVE) by (destruct Hres as [E|[E|E]]; rewrite E; discriminate).
+  destruct T; try congruence; try contradiction.
+  - eexists. eapply ST_withdraw; eassumption.
+  - eexists. eapply ST_settle_bet; eassumption.
+  - eexists. eapply ST_book_resolved; assumption.
+  - eexists. eapply ST_settle_parts; eassumption.
+Qed.
+
+(* ---- what is carried along the settlement of a market ---------------------------------------------------------------------------------------------- *)
+Record sgood (x : mstate) : Prop := {
+  sg_sett : msett x;
+  sg_ids : NoDup (map b_id (ms_bets x));
+  sg_pend : ms_pending x = unsettled_ids (ms_bets x);
+  sg_res : status_res (k_status (ms_mkt x)) }.
+
+Lemma sgood_closed x : sgood x -> bets_closed x.
+Proof. intros G. apply closed_of_pending; [apply (sg_sett _ G)|apply (sg_pend _ G)]. Qed.
+
+Lemma settle_bet_pinv x h id x' effs : settle_bet x h id = Some (x', effs) ->
+  NoDup (map b_id (ms_bets x)) -> ms_pending x = unsettled_ids (ms_bets x) ->
+  NoDup (map b_id (ms_bets x')) /\ ms_pending x' = unsettled_ids (ms_bets x') /\ ms_mkt x' = ms_mkt x.
+Proof.
+  intros H Hn Hp. destruct (settle_bet_shape _ _ _ _ _ H) as (b & r & EF & Hb & Hpe).
+  assert (Hst : b_status b <> BS_SETTLED).
+  { unfold settle_bet in H. cbv zeta in H. rewrite EF in H. destruct (b_status b =? BS_SETTLED) eqn:E; [discriminate|]. apply Z.eqb_neq in E. exact E. }
+  assert (Hid : b_id b = id) by (apply find_some in EF; destruct EF as [_ E]; apply Z.eqb_eq in E; exact E).
+  destruct (upd_split _ _ _ EF) as (B1 & B2 & E1 & E2).
+  assert (Hm : ms_mkt x' = ms_mkt x).
+  { unfold settle_bet in H. cbv zeta in H. rewrite EF in H. destruct (b_status b =? BS_SETTLED); [discriminate|].
+    destruct ((k_status (ms_mkt x) =? MK_ABORTED) || (k_status (ms_mkt x) =? MK_CANCELED)).
+    - destruct (payout_profit _ _); [|discriminate]. injection H as <- _. reflexivity.
+    - destruct (negb _); [discriminate|]. destruct (zmem _ _).
+      + destruct (bettor_wins _ _ _) as [[bk e0]|]; [|discriminate]. injection H as <- _. reflexivity.
+      + destruct (bettor_loses _ _) as [bk|]; [|discriminate]. injection H as <- _. reflexivity. }
+  rewrite Hb, Hpe, Hp, E2. rewrite E1 in Hn. split; [|split; [|exact Hm]].
+  - rewrite map_app in *. cbn [map b_id bet_with] in *. exact Hn.
+  - rewrite E1, <- Hid. apply pending_settle; [exact Hn|exact Hst].
+Qed.
+
+Lemma ent_same x x' a : ms_mkt x' = ms_mkt x -> ms_bets x' = ms_bets x -> bk_parts (ms_book x') = bk_parts (ms_book x) -> ent x' a = ent x a.
+Proof. intros E1 E2 E3. unfold ent. rewrite E1, E2, E3. reflexivity. Qed.
+
+Section Conserve.
+Variable P : params.
+Hypothesis HP : pr_bet_fee P <= pr_bet_min P.
+Hypothesis HF : 0 <= pr_bet_fee P.
+
+(* one transition: the invariant package is kept, and entitlement + paid is conserved for every account *)
+Theorem strans_conserves x effs x' : sgood x -> strans P x effs x' ->
+  sgood x' /\ forall a, ent x a = ent x' a + recv a effs.
+Proof.
+  intros G T. pose proof (strans_mtrans P x effs x' (sg_res _ G) T) as MT.
+  pose proof (msett_step P x x' HP HF (sg_sett _ G) MT) as S'.
+  destruct G as [S Hn Hp Hres]. destruct T.
+  - split; [constructor; [exact S'|exact Hn|exact Hp|exact Hres]|]. intros a.
+    match goal with E : calc_withdrawal _ _ _ _ _ _ = Some _ |- _ => destruct (calc_withdrawal_spec _ _ _ _ _ _ _ E) as (p & Gp & Hset & _) end.
+    unfold ent. cbn [ms_mkt ms_bets ms_book mstate_upd].
+    match goal with E : withdraw_participation _ _ _ = Some _ |- _ => rewrite (withdraw_ent (ms_mkt x) (ms_bets x) a _ _ _ _ _ p Hres E Gp Hset) end. lia.
+  - match goal with E : settle_bet _ _ _ = Some _ |- _ => destruct (settle_bet_pinv _ _ _ _ _ E Hn Hp) as (Hn' & Hp' & Hm'); pose proof (fun a => settle_bet_ent _ _ _ _ _ a E) as Hent end.
+    split; [constructor; [exact S'|exact Hn'|exact Hp'|rewrite Hm'; exact Hres]|]. intros a. apply Hent.
+  - split; [constructor; [exact S'|exact Hn|exact Hp|exact Hres]|]. intros a. unfold recv. cbn [map zsum]. rewrite Z.add_0_r. symmetry. apply ent_same; reflexivity.
+  - split; [constructor; [exact S'|exact Hn|exact Hp|exact Hres]|]. intros a.
+    assert (Hcl : bets_closed x) by (apply closed_of_pending; assumption).
+    assert (Hna : bk_status (ms_book x) <> BK_ACTIVE) by (match goal with E : bk_status (ms_book x) = BK_RESOLVED |- _ => rewrite E end; discriminate).
+    unfold ent. cbn [ms_mkt ms_bets ms_book with_book mstate_upd bk_parts book_upd].
+    match goal with E : batch_parts _ _ _ _ _ = Some _ |- _ => rewrite (batch_parts_ent (ms_mkt x) (ms_bets x) a _ _ _ _ _ _ _ E) end; [lia|].
+    intros p Hpin Hd. rewrite (po_profit _ _ (se_parts _ S p Hpin)). unfold exp_profit. unfold declaredb in Hd. rewrite Hd.
+    unfold attr, ctot. apply zsum_map_ext. intros b Hb. rewrite (Hcl Hna b Hb). reflexivity.
+Qed.
+
+Theorem sreach_conserves x effs x' : sgood x -> sreach P x effs x' ->
+  sgood x' /\ forall a, ent x a = ent x' a + recv a effs.
+Proof.
+  intros G R. induction R as [|x e1 y e2 z _ IH T].
+  - split; [exact G|]. intros a. unfold recv. cbn. lia.
+  - destruct (IH G) as [Gy Ey]. destruct (strans_conserves y e2 z Gy T) as [Gz Ez].
+    split; [exact Gz|]. intros a. rewrite recv_app, (Ey a), (Ez a). lia.
+Qed.
+
+(* every sequence of local transitions from a resolved market is such a sequence *)
+Lemma mreach_sreach x x' : sgood x -> mreach P x x' -> exists effs, sreach P x effs x'.
+Proof.
+  intros G R. induction R as [|x y z _ IH T].
+  - exists []. constructor.
+  - destruct (IH G) as (e1 & R1). destruct (sreach_conserves x e1 y G R1) as [Gy _].
+    destruct (mtrans_strans P y z (sg_res _ Gy) T) as (e2 & T2). exists (e1 ++ e2). eapply sr_step; eassumption.
+Qed.
+
+(* a settled market owes nothing *)
+Lemma settled_ent_zero x a : sgood x -> bk_status (ms_book x) = BK_SETTLED -> unpaid x = 0 -> ent x a = 0.
+Proof.
+  intros G Hs Hu. pose proof (sgood_closed x G) as Hcl.
+  assert (Hna : bk_status (ms_book x) <> BK_ACTIVE) by (rewrite Hs; discriminate).
+  unfold ent. rewrite (zsum_map_zero (bet_ent (ms_mkt x) a)) by (intros b Hb; unfold bet_ent; rewrite (Hcl Hna b Hb); reflexivity).
+  rewrite (zsum_map_zero (part_ent (ms_mkt x) (ms_bets x) a)) by (intros p Hp; unfold part_ent; rewrite (unpaid_zero_all x Hu p Hp); reflexivity).
+  reflexivity.
+Qed.
+End Conserve.
+
+(* ---- over every history ------------------------------------------------------------------------------------------------------------------------- *)
+Section History.
+Variables (P : params) (bk : bank) (supply : Z) (vault : list Z) (MP : mparams) (t0 : Z) (sw sd : bool).
+Hypothesis HP : pr_bet_fee P <= pr_bet_min P.
+Hypothesis HF : 0 <= pr_bet_fee P.
+Hypothesis B1 : bget bk POOL = 0.
+Hypothesis B2 : bget bk HOUSEFEE = 0.
+Hypothesis B3 : bget bk BETFEE = 0.
+Hypothesis Hb : forall a, SUBBASE <= a -> 0 <= bget bk a.
+
+Let s0 := init bk supply P vault MP t0 sw sd.
+
+Lemma reachable_sgood ops m x : Forall user_op ops -> get_ms (run s0 ops) m = Some x -> status_res (k_status (ms_mkt x)) -> sgood x.
+Proof.
+  intros Hv Hx Hres. pose proof (reach_g2 P bk supply vault MP t0 sw sd HP HF B1 B2 B3 Hb ops Hv) as G. fold s0 in G.
+  pose proof (get_ms_in _ _ _ Hx) as Hin. constructor.
+  - apply (g_all _ (g2_g1 _ G) _ Hin).
+  - pose proof (nodup_flat b_id (fun e : Z * mstate => ms_bets (snd e)) (c_ms (run s0 ops)) (m, x) Hin (g_ids _ _ _ _ (bi_g _ (g_binv _ (g2_g1 _ G))))) as Hnd. exact Hnd.
+  - apply (bi_pend _ (g_binv _ (g2_g1 _ G)) _ Hin).
+  - exact Hres.
+Qed.
+
+(* Between any two points of any history, a market that was resolved at the first point has made a sequence of settlement transitions
+   whose payments, account by account, are exactly the entitlement it lost: whatever the batch sizes, whatever happened in between. *)
+Theorem settlement_conserves ops1 ops2 m x : Forall user_op ops1 -> Forall user_op ops2 ->
+  get_ms (run s0 ops1) m = Some x -> status_res (k_status (ms_mkt x)) ->
+  exists x' effs, get_ms (run s0 (ops1 ++ ops2)) m = Some x' /\ sreach P x effs x' /\ forall a, ent x a = ent x' a + recv a effs.
+Proof.
+  intros H1 H2 Hx Hres. pose proof (reachable_sgood ops1 m x H1 Hx Hres) as G.
+  pose proof (reach_g2 P bk supply vault MP t0 sw sd HP HF B1 B2 B3 Hb ops1 H1) as G2. fold s0 in G2.
+  pose proof (run_lrel ops2 (run s0 ops1) (g_inv _ (g2_g1 _ G2)) (user_valid_all ops2 H2)) as [L1 L2].
+  pose proof (reach_prm P bk supply vault MP t0 sw sd ops1) as Ep. fold s0 in Ep. rewrite Ep in L1.
+  destruct (L2 m x Hx) as (x' & Hx'). rewrite <- run_app in Hx'.
+  exists x'. destruct (L1 m x') as [(y & Hy & R)|(Hn & _)]; [rewrite <- run_app; exact Hx'| |rewrite Hx in Hn; discriminate].
+  rewrite Hx in Hy. injection Hy as Ey. subst y.
+  destruct (mreach_sreach P HP HF x x' G R) as (effs & SR). exists effs. split; [exact Hx'|]. split; [exact SR|].
+  apply (sreach_conserves P HP HF x effs x' G SR).
+Qed.
+
+(* ... and once the market is settled, each account has received exactly its entitlement at the first point: a function of the market's
+   record when it was resolved (or at any later moment of its settlement), not of the batch sizes or of the interleaving *)
+Theorem settlement_determined ops1 ops2 m x : Forall user_op ops1 -> Forall user_op ops2 ->
+  get_ms (run s0 ops1) m = Some x -> status_res (k_status (ms_mkt x)) ->
+  book_at_least BK_SETTLED (run s0 (ops1 ++ ops2)) m ->
+  exists x' effs, get_ms (run s0 (ops1 ++ ops2)) m = Some x' /\ sreach P x effs x' /\ forall a, recv a effs = ent x a.
+Proof.
+  intros H1 H2 Hx Hres Hst.
+  destruct (settlement_conserves ops1 ops2 m x H1 H2 Hx Hres) as (x' & effs & Hx' & SR & E).
+  exists x', effs. split; [exact Hx'|]. split; [exact SR|]. intros a.
+  assert (Hall : Forall user_op (ops1 ++ ops2)) by (apply Forall_app; split; assumption).
+  destruct (settled_means P bk supply vault MP t0 sw sd HP HF B1 B2 B3 Hb (ops1 ++ ops2) m Hall Hst) as (y & Hy & Hs & Hp & _).
+  fold s0 in Hy. rewrite Hx' in Hy. injection Hy as Ey. subst y.
+  destruct (sreach_conserves P HP HF x effs x' (reachable_sgood ops1 m x H1 Hx Hres) SR) as [Gy _].
+  assert (Hu : unpaid x' = 0).
+  { unfold unpaid, zlen. replace (filter (fun p => negb (p_settled p)) (bk_parts (ms_book x'))) with (@nil part); [reflexivity|].
+    symmetry. induction (bk_parts (ms_book x')) as [|p r IH]; [reflexivity|]. cbn [filter]. rewrite (Hp p (or_introl eq_refl)). cbn [negb]. apply IH. intros q Hq. apply Hp. right. exact Hq. }
+  rewrite (E a), (settled_ent_zero x' a Gy Hs Hu). lia.
+Qed.
+End History.
